@@ -35,6 +35,7 @@ import (
 	sdkmath "cosmossdk.io/math"
 	storetypes "cosmossdk.io/store/types"
 	sdk "github.com/cosmos/cosmos-sdk/types"
+	"github.com/cosmos/cosmos-sdk/types/bech32"
 	authtypes "github.com/cosmos/cosmos-sdk/x/auth/types"
 	banktypes "github.com/cosmos/cosmos-sdk/x/bank/types"
 	distrtypes "github.com/cosmos/cosmos-sdk/x/distribution/types"
@@ -43,6 +44,7 @@ import (
 	"github.com/cosmos/gogoproto/proto"
 	"github.com/ethereum/go-ethereum/common"
 
+	"github.com/functionx/fx-core/v8/contract"
 	"github.com/functionx/fx-core/v8/testutil/helpers"
 	fxtypes "github.com/functionx/fx-core/v8/types"
 	crosschaintypes "github.com/functionx/fx-core/v8/x/crosschain/types"
@@ -365,6 +367,23 @@ func TestC16(t *testing.T) {
 			}
 		}
 		out.Stats.Extra["keepers_with_authority_getter"] = n
+	}
+
+	// ---- the governance module account as the x/auth STATE has it (hypotheses of dependency_exception_rejects: SDK
+	// MsgExecLegacyContent compares the authority with the address of the account it reads from state)
+	{
+		acc := app.AccountKeeper.GetAccount(s.Ctx, govBz0())
+		ma, isMod := acc.(sdk.ModuleAccountI)
+		switch {
+		case acc == nil:
+			out.Violate("the x/auth state holds no account at the governance module address (GetModuleAccount would create one inside MsgExecLegacyContent before its authority check)")
+		case !isMod || ma.GetName() != govtypes.ModuleName:
+			out.Violate("the account at the governance module address in the x/auth state is not the module account named gov")
+		case acc.GetAddress().String() != gov:
+			out.Violate("the governance module account in the x/auth state has address " + acc.GetAddress().String() + ", not " + gov)
+		default:
+			out.Count("state-gov-account-is-module-address")
+		}
 	}
 
 	// ---- valid payload builders for the fx-core messages
@@ -839,6 +858,21 @@ func TestC16(t *testing.T) {
 			out.Count("bech:" + obs[:2])
 			out.Emit(fmt.Sprintf("fold %s %s", hx.HexS(gov), dash(hx.HexS(sp))), fmt.Sprint(strings.EqualFold(gov, sp)))
 			out.Count("fold:" + fmt.Sprint(strings.EqualFold(gov, sp)))
+			// the other decoders a guard could put in front of its comparison (hand-modelled: parseAddress, evmAddr): the
+			// lenient fxtypes.ParseAddress and common.BytesToAddress of the sdk-decoded bytes
+			if contract.ValidateEthereumAddress(sp) == nil {
+				out.Emit("eip55 "+hx.HexS(sp), "ok") // environment of the model: Keccak-256 is not modelled
+				out.Count("parse:eip55-spelling")
+			}
+			pobs := "err"
+			if pa, _, perr := fxtypes.ParseAddress(sp); perr == nil {
+				pobs = "ok:" + dash(hex.EncodeToString(pa))
+			}
+			out.Emit("parse "+dash(hx.HexS(sp)), pobs)
+			out.Count("parse:" + pobs[:2])
+			da, _ := sdk.AccAddressFromBech32(sp)
+			out.Emit("evm20 "+dash(hx.HexS(sp)), hex.EncodeToString(common.BytesToAddress(da).Bytes()))
+			out.Count(fmt.Sprintf("evm20:decoded-len:%d", len(da)))
 		}
 		// ---------------- monitor stream: every routed authority message, junk + candidates, zero and valid payloads
 		vmsgs := valid(rng)
@@ -883,7 +917,7 @@ func TestC16(t *testing.T) {
 						out.Count("hmon:" + c.kind)
 						if hres != "ok" {
 							out.Count("hmon-panic:" + u)
-						} else if d, dep := depImpl[msgKey(m)]; dep && !strings.HasSuffix(u, "MsgExecLegacyContent") {
+						} else if d, dep := depImpl[msgKey(m)]; dep {
 							// correspondence with the model of the regenerated dependency handler
 							obs := "rejected"
 							if herr == nil {
@@ -937,6 +971,8 @@ func TestC16(t *testing.T) {
 		}
 	}
 }
+
+func govBz0() sdk.AccAddress { return authtypes.NewModuleAddress(govtypes.ModuleName) }
 
 func cloneMsg(m sdk.Msg) sdk.Msg {
 	bz, err := proto.Marshal(m)
@@ -1072,7 +1108,45 @@ func isASCII(s string) bool {
 // mutate returns a spelling near the governance address: case changes, substitutions, truncations, other payloads.
 func mutate(rng *rand.Rand, gov, prefix string, govBz []byte) string {
 	r := []rune(gov)
-	switch rng.Intn(12) {
+	switch rng.Intn(15) {
+	case 12: // 0x spellings: EIP-55, lower case, upper-case digits, of the governance bytes or of random ones
+		bz := govBz
+		if rng.Intn(3) == 0 {
+			bz = make([]byte, 20)
+			rng.Read(bz)
+		}
+		h := common.BytesToAddress(bz).Hex()
+		switch rng.Intn(4) {
+		case 0:
+			return strings.ToLower(h)
+		case 1:
+			return "0X" + h[2:]
+		case 2:
+			return h[2:]
+		}
+		return h
+	case 13: // a valid account address of another length that embeds the governance bytes
+		pad := make([]byte, []int{1, 12, 12, 44, 235}[rng.Intn(5)])
+		if rng.Intn(2) == 0 {
+			rng.Read(pad)
+		}
+		bz := append(append([]byte{}, pad...), govBz...)
+		if rng.Intn(3) == 0 {
+			bz = append(append([]byte{}, govBz...), pad...)
+		}
+		a, err := sdk.Bech32ifyAddressBytes(prefix, bz)
+		if err != nil {
+			return gov
+		}
+		return a
+	case 14: // bech32 of short / empty payloads under any prefix (the lenient decoder checks neither prefix nor length)
+		bz := make([]byte, rng.Intn(3))
+		rng.Read(bz)
+		a, err := bech32.ConvertAndEncode([]string{prefix, "fx", "x"}[rng.Intn(3)], bz)
+		if err != nil {
+			return gov
+		}
+		return a
 	case 0:
 		return gov
 	case 1:
